@@ -174,6 +174,13 @@ class FullCheck(BaseCheck):
       stall = rng.choice([0.02, 0.2, 1.0])
       for s_ in w.servers:
         s_.sim.send_delay = lambda conn: stall * rng.random() if rng.random() < 0.3 else 0.0
+    if rng.random() < bias.get('short_sends', 0.15):
+      # sockets whose send() takes only part of a buffer (small socket buffers / frames larger
+      # than the free space): whoever writes has to loop until everything is out
+      classes.add('short-sends')
+      lim = rng.choice([1, 7, 64, 700])
+      for s_ in w.servers:
+        s_.sim.send_limit = lim
     if open_timeout == 0 or first_mode != 'up' or conn_lat > 0.1:
       classes.add('slow-or-async-open')
 
